@@ -119,6 +119,14 @@ def rejections_rule(ctx, rep, rule):
     cur = sum(per.values())
     rep.add(rule, "no-new-rejection-on-the-reconstruction-path", cur <= ref["stream"]["rejections"], "",
             "%d error results constructed by reconstruction-path functions (reference %d): %s" % (cur, ref["stream"]["rejections"], {k: v for k, v in sorted(per.items()) if v}))
+    # the decisions that lead there: a guard in front of an existing `Err` arm refuses more without constructing more
+    if "rejection_edges" not in ref["stream"]:
+        rep.missing(rule, "reference/format_surface.json: stream.rejection_edges")
+        return
+    pe = {d.replace(P, ""): len(_err.rejection_edges(F, F.bodies[d])) for d in defs if d in F.bodies}
+    ce = sum(pe.values())
+    rep.add(rule, "no-new-refusing-decision-on-the-reconstruction-path", ce <= ref["stream"]["rejection_edges"], "",
+            "%d conditional edges lead only to an error result in reconstruction-path functions (reference %d): %s" % (ce, ref["stream"]["rejection_edges"], {k: v for k, v in sorted(pe.items()) if v}))
 
 
 def compute_surface(F):
@@ -198,6 +206,7 @@ def compute_surface(F):
     # ---- what the reader of stored data refuses ---------------------------------------------------------------
     from .. import err as _err
     S["stream"]["rejections"] = sum(len(_err.error_constructions(F, F.bodies[d])) for d in defs if d in F.bodies)
+    S["stream"]["rejection_edges"] = sum(len(_err.rejection_edges(F, F.bodies[d])) for d in defs if d in F.bodies)
     # ---- closed forms -------------------------------------------------------------------------------
     for d in leaves:
         try:
@@ -814,6 +823,10 @@ def run(ctx, rep):
                     gone = {x: rv[x] for x in rv if x not in cv}
                     new = {x: cv[x] for x in cv if x not in rv}
                     rv, cv = "values no longer referenced: %s" % gone, "new values: %s" % new
+            if k == "rejection_edges" and isinstance(rv, int) and isinstance(cv, int):
+                same = cv <= rv
+                if not same:
+                    rv, cv = "%d refusing decisions on the reconstruction path" % rv, "%d: a new condition under which stored data (or an accepted analysis result) is refused" % cv
             if k == "rejections" and isinstance(rv, int) and isinstance(cv, int):
                 # a rejection that disappears refuses nothing that was accepted; a new one may refuse stored data
                 same = cv <= rv
